@@ -119,6 +119,9 @@ LEAVES_EXT += ['type[L1]', 'Annotated[object, ISEQ(5), IS(gt3)]']
 # negated / nested validator algebra inside hints; validators over an ignorable metahint as the FIRST member of an all-PEP union nested in a
 # container (the position where the generator hands the validator an assignment expression instead of a name)
 NS.setdefault('even', even)
+# an alias naming a union WIDER than the unions it is used in (nested unions are flattened member by member)
+exec("type AU = L0 | L1 | int | bytes", NS)
+NULLARY += ['AU', 'Optional[AU]', 'Union[AU, str]', 'list[Optional[AU]]', 'dict[str, Union[AU, None]]']
 NULLARY += ['Annotated[int, NOT(AND(IS(pos), IS(even)))]', 'Annotated[object, NOT(AND(ISINST(L0), ISEQ(5)))]', 'list[Annotated[int, NOT(OR(IS(pos), ISEQ(5)))]]',
             'Annotated[int, OR(NOT(AND(IS(pos), IS(gt3))), ISEQ(7))]', 'list[Union[Annotated[object, AND(ISINST(L0), ISEQ(5))], tuple[int, ...]]]',
             'list[Union[Annotated[object, ISEQ(5), IS(gt3)], list[str]]]', 'tuple[Union[Annotated[Any, OR(IS(pos), ISEQ(5))], list[str]], ...]',
